@@ -635,6 +635,21 @@ func checkPublicClassPlaintext(c *Ctx, rule string) {
 				if call, ok := x.Tuple.(*ssa.Call); ok && calleeShort(&call.Call) == "Neuter" && x.Index == 0 {
 					continue
 				}
+				// a normalising part of the package (`publicKeyOf(k) (*ExtendedKey, error)`): what it returns
+				if call, ok := x.Tuple.(*ssa.Call); ok {
+					if h := call.Call.StaticCallee(); h != nil && h.Pkg != nil && fnPkgPath(h) == rel("waddrmgr") && len(h.Blocks) > 0 {
+						for _, hb := range h.Blocks {
+							if r, isRet := hb.Instrs[len(hb.Instrs)-1].(*ssa.Return); isRet && x.Index < len(r.Results) {
+								rv := effectiveResult(r, x.Index)
+								if isNilConst(rv) {
+									continue
+								}
+								bad = append(bad, keyIsPublic(rv, depth+1, seen)...)
+							}
+						}
+						continue
+					}
+				}
 				bad = append(bad, describeValue(o))
 			case *ssa.Parameter:
 				fn := x.Parent()
